@@ -260,7 +260,7 @@ PURE_CALLS = {"len", "int", "float", "str", "bool", "min", "max", "sum", "abs", 
               "list", "tuple", "sorted", "set", "frozenset", "dict", "enumerate", "zip", "range", "reversed", "getattr", "Path"}
 PURE_METHODS = {"index", "get", "lower", "upper", "keys", "values", "items", "startswith", "endswith", "strip", "lstrip", "rstrip",
                 "split", "format", "join", "count", "find", "partition", "with_name", "with_suffix", "hexdigest", "read_bytes",
-                "get_ports", "get_ISA", "get_data_ports", "subgraph", "has_node", "has_edge", "descendants", "ancestors", "has_path"}
+                "get_ports", "get_ISA", "get_data_ports", "subgraph", "has_node", "has_edge", "descendants", "ancestors", "has_path", "match", "fullmatch", "search", "group", "groups"}
 CREATORS = {"list", "tuple", "sorted", "set", "frozenset", "dict", "enumerate", "zip", "range", "reversed"}
 MUTATING = {"append", "add", "insert", "extend", "update", "remove", "pop", "sort", "reverse", "clear", "setdefault", "discard", "popitem"}
 
